@@ -22,7 +22,7 @@ JOBS = {'quick': 4, 'thorough': 16}
 REQUIRED_MONITORS = ('output_vs_truth', 'map_call_log', 'early_extrapolation_refused', 'em_shape_contract')
 REQUIRED_CLASSES = ('species:unmapped-interleaved', 'solvent', 'box:triclinic', 'box:rect', 'ref:1-atom', 'ref:2-atoms',
                     'ref:general', 'multi-residue', 'order:random', 'order:blocks', 'order:alternating', 'shipped-bmim-bf4',
-                    'early:no-maps', 'early:no-end-molecules')
+                    'early:no-maps', 'early:no-end-molecules', 'early:partial-maps')
 RULE = ('generated systems: 2-4 species (1-, 2-, many-bead; single and multi-residue) + solvent, 1..60 instances each in '
         'random/blocked/alternating order, a random non-empty subset of species given an end molecule, rectangular and '
         'triclinic boxes, s in {0.3,0.5,1,1.5}; plus the shipped BMIM/BF4 box. Non-trivial: at least two mapped species or a '
@@ -200,7 +200,24 @@ def run_gen(ctx, case):
                 ctx.violation(f'early-extrapolation-left-a-file:{stage}', f'{os.path.getsize(out)} bytes written although extrapolation was refused', witness=wit)
                 os.remove(out)
         man.align_molecules()
-        # partially prepared: maps of only some species (only meaningful with >= 2 mapped species)
+        # partially prepared: maps exist for some species, another species got its end molecule afterwards
+        if len(w['end_for']) >= 2 and i % 2 == 0:
+            late = w['end_for'][int(rng.integers(0, len(w['end_for'])))]
+            ali = man.molecule_correspondence[late]
+            late_end = ali.end
+            ali.end = None
+            man.calculate_exchange_maps(scale_factor=s)          # maps of the other species only
+            ali.end = late_end                                   # both resolutions attached, no map yet
+            try:
+                man.extrapolate_system(out)
+                ctx.violation('early-extrapolation-accepted:partial-maps',
+                              f'extrapolate_system returned normally although species {late} has both resolutions but no exchange map', witness=wit)
+            except Exception:  # noqa
+                pass
+            ctx.hit('early:partial-maps')
+            if os.path.exists(out):
+                ctx.violation('early-extrapolation-left-a-file:partial-maps', f'{os.path.getsize(out)} bytes written although extrapolation was refused', witness=wit)
+                os.remove(out)
         man.calculate_exchange_maps(scale_factor=s)
         del _log['calls'][:]
         man.extrapolate_system(out)
